@@ -29,3 +29,71 @@ Proof.
   lia.
 Qed.
 Print Assumptions C10_cost_counts_cells.
+
+(* ====================================================================================================
+   Selector part (traversal cluster): selector compilation and selector walks are total.
+   Models: Trav/Selector.v (compile = every Parse* function; Explore/Interests/Match), Trav/Walk.v (walk),
+   Trav/Total.v (compile-time allocation of ranges, link-cycle freedom, sufficient fuel). *)
+Require Import IP.Trav.Selector IP.Trav.Walk IP.Trav.Total IP.Proofs.TravDenote IP.Proofs.TravC07Refuted
+  IP.Proofs.TravTotal.
+
+(* Compilation ends, for every data-model value, in a closed well-formed selector, an error, or "unsupported"
+   (ExploreInterpretAs is not modelled).  The model has no panic outcome for compilation: the Parse* functions
+   contain exactly one Go panic site, the makeslice of ParseExploreRange, which is the subject of
+   C10_compile_range_alloc_refuted below; every other failure path of Parse* is an explicit error return. *)
+Theorem C10_compile_total : forall v,
+  (exists s, compile v = COk s /\ srcw false s) \/ compile v = CErr \/ compile v = CUnsupported.
+Proof. exact compile_outcomes. Qed.
+Print Assumptions C10_compile_total.
+
+(* ... and an error is never an artefact of the model's fuel: beyond the nesting depth of the declaration the
+   result does not depend on the fuel *)
+Theorem C10_compile_fuel_enough : forall v k,
+  compile_f (S (dm_depth v) + k) false v = compile_f (S (dm_depth v)) false v.
+Proof. exact compile_fuel_enough. Qed.
+Print Assumptions C10_compile_fuel_enough.
+
+(* The walk of ANY selector over ANY graph without a link cycle (every content-addressed graph) and any root, with
+   fuel >= walk_fuel g root = depth(root)+1 + |g|*(deepest block+1), ends in a result or an error: never in Panic
+   and never out of fuel — for the advanced and the matching walk, for every setting of the C07 switches in which
+   ExploreRecursiveEdge.Explore does not panic (the repaired model, and the tree since b8b93dd; for the earlier
+   code the panic is C07_refuted_bare_edge_panic). *)
+Theorem C10_walk_total : forall q, q_bare_edge_panic q = false -> forall g root s f,
+  chain_ok g (length g) root = true -> (walk_fuel g root <= f)%nat ->
+  total_outcome (snd (walk_adv q g f root s)) /\ total_outcome (snd (walk_matching q g f root s)).
+Proof. exact walk_total. Qed.
+Print Assumptions C10_walk_total.
+
+Theorem C10_explore_no_panic : forall q, q_bare_edge_panic q = false ->
+  forall s n p, explore q s n p <> XPanic.
+Proof. exact explore_no_panic. Qed.
+Print Assumptions C10_explore_no_panic.
+
+Theorem C10_walk_total_hypotheses_satisfiable :
+  let g := [([1; 113; 18; 1; 170]%N, DMap [([118%N], DInt 7)])] in
+  let root := DMap [([97%N], DLink [1; 113; 18; 1; 170]%N); ([98%N], DList [DInt 1; DLink [1; 113; 18; 1; 170]%N])] in
+  chain_ok g (length g) root = true /\ walk_fuel g root = 5%nat /\
+  chain_ok [([1%N], DList [DLink [1%N]])] 1 (DLink [1%N]) = false.
+Proof. exact walk_total_example. Qed.
+Print Assumptions C10_walk_total_hypotheses_satisfiable.
+
+(* Bounded?  NO for compilation as coded: ParseExploreRange materialises end-start path segments, so a declaration
+   of 6 nodes makes the compiler allocate K segments for every K (24 bytes each; a fatal out-of-memory for
+   2^40, a makeslice panic when the int64 capacity wraps) — allocation proportional to an attacker-chosen number. *)
+Theorem C10_range_interests_length : forall a b nx l,
+  interests (SRange a b nx) = Some l -> length l = Z.to_nat (b - a).
+Proof. exact range_interests_length. Qed.
+Print Assumptions C10_range_interests_length.
+
+Theorem C10_compile_range_alloc_refuted : forall K, (0 < K < int64_lim)%Z ->
+  exists s, compile (d_range 0 K d_match) = COk s /\ dm_nodes (d_range 0 K d_match) = 6%nat /\ compile_alloc s = K.
+Proof. exact compile_alloc_unbounded. Qed.
+Print Assumptions C10_compile_range_alloc_refuted.
+
+Theorem C10_compile_range_alloc_witnesses :
+  (exists s, compile (d_range 0 1099511627776 d_match) = COk s /\ compile_alloc s = 1099511627776%Z) /\
+  (exists s, compile (d_range (-9223372036854775808) 9223372036854775807 d_match) = COk s /\
+             range_cap_panics (-9223372036854775808) 9223372036854775807 = true /\
+             compile_alloc s = 18446744073709551615%Z).
+Proof. exact range_alloc_witnesses. Qed.
+Print Assumptions C10_compile_range_alloc_witnesses.
